@@ -13,6 +13,7 @@
 
 #include "myth_init_func.h"
 #include "myth_log_func.h"
+#include "myth_verif.h"
 
 myth_globalattr_t g_attr;
 
@@ -83,11 +84,15 @@ int myth_init_ex_body(const myth_globalattr_t * attr) {
   if (!myth_init_once_ctl_try_set(&g_myth_init_state,
 				  myth_init_state_uninit,
 				  myth_init_state_initializing)) {
+    MYTH_VERIF_COV(INIT_WAITED);
     myth_init_once_ctl_wait(&g_myth_init_state, myth_init_state_initialized);
     return 1;			/* OK */
   }
   assert(g_myth_init_state == myth_init_state_initializing);
+  MYTH_VERIF_COV(INIT_WON);
+  MYTH_VERIF_EV(INIT_BEGIN, 0, 0);
   myth_init_ex_body_really(attr);
+  MYTH_VERIF_EV(INIT_END, 0, 0);
   g_myth_init_state = myth_init_state_initialized;
   return 1;			/* OK */
 }
@@ -381,6 +386,7 @@ int myth_fini_body() {
     return 1;			/* OK */
   }
   myth_init_once_ctl_wait(&g_myth_init_state, myth_init_state_initialized);
+  MYTH_VERIF_EV(FINI_BEGIN, 0, 0);
   //add context switch as a sentinel for emitting logs
   int i;
   for (i = 0; i < g_attr.n_workers; i++){
@@ -395,6 +401,7 @@ int myth_fini_body() {
     real_pthread_join(g_envs[i].worker, NULL);
   }
   myth_fini_body_really();
+  MYTH_VERIF_EV(FINI_END, 0, 0);
   g_myth_init_state = myth_init_state_uninit;
   return 0;
 }
